@@ -376,6 +376,10 @@ type gatedBucket struct {
 	entered chan struct{}
 	gate    chan struct{}
 	first   atomic.Bool
+	// gate of the first Released() call (ReleaseBuckets asks every bucket); nil = not gated
+	relEntered chan struct{}
+	relGate    chan struct{}
+	relFirst   atomic.Bool
 }
 
 func (g *gatedBucket) SetGeneration(gen *cache.Generation) {
@@ -386,7 +390,13 @@ func (g *gatedBucket) SetGeneration(gen *cache.Generation) {
 	g.c.SetGeneration(gen)
 }
 func (g *gatedBucket) Cleanup() uint64             { return g.c.Cleanup() }
-func (g *gatedBucket) Released() bool              { return g.c.Released() }
+func (g *gatedBucket) Released() bool {
+	if g.relGate != nil && g.relFirst.CompareAndSwap(false, true) {
+		g.relEntered <- struct{}{}
+		<-g.relGate
+	}
+	return g.c.Released()
+}
 func (g *gatedBucket) Reset(gen *cache.Generation) { g.c.Reset(gen) }
 
 // registerScenario: CacheRegister.tla says a registration is one step (Register): a rotation comes before it or
@@ -461,9 +471,69 @@ func registerScenario(n int) int {
 	return bad
 }
 
+// releaseScenario: CacheRegister.tla says ReleaseBuckets is one step under the cleaner's mutex. The driver registers a
+// cache that has been released, starts ReleaseBuckets, attempts the registration of a NEW cache while ReleaseBuckets
+// is asking the buckets, lets both finish: the new cache must be under the cleaner's management (LiveCachesManaged)
+// and what it loads must be accounted.
+func releaseScenario(n int) int {
+	bad := 0
+	for i := 0; i < n; i++ {
+		fail := func(what string) {
+			bad++
+			emit(map[string]any{"n": -100 - i, "what": "registration of a cache during ReleaseBuckets: " + what, "scenario": "releasebuckets"})
+		}
+		limit := uint64(1.5 * unit)
+		cl := cache.NewCleaner(limit, nil)
+		m0, _ := metrics()
+		old := cache.NewCache[string](nil, m0)
+		gb := &gatedBucket{c: old, entered: make(chan struct{}, 1), gate: make(chan struct{}), relEntered: make(chan struct{}, 1), relGate: make(chan struct{})}
+		close(gb.gate)
+		cl.AddBucket(gb)
+		<-gb.entered
+		old.Get(1, func() (string, int) { return "o", unit })
+		old.Release()
+		relDone := make(chan struct{})
+		go func() { cl.ReleaseBuckets(); close(relDone) }()
+		select {
+		case <-gb.relEntered:
+		case <-time.After(60 * time.Second):
+			emit(map[string]any{"infra": "ReleaseBuckets never asked the bucket"})
+			os.Exit(3)
+		}
+		m1, _ := metrics()
+		var fresh *cache.Cache[string]
+		addDone := make(chan struct{})
+		go func() { fresh = cache.NewCache[string](cl, m1); close(addDone) }()
+		// the registration either waits for the cleaner's mutex (ReleaseBuckets is atomic) or runs through
+		select {
+		case <-addDone:
+		case <-time.After(time.Duration(20+i%3*40) * time.Millisecond):
+		}
+		close(gb.relGate)
+		<-relDone
+		<-addDone
+		if !cl.VerifManages(fresh) {
+			fail(fmt.Sprintf("the new cache is not in the cleaner's bucket list (%d buckets)", cl.VerifBuckets()))
+			continue
+		}
+		fresh.Get(7, func() (string, int) { return "x", unit })
+		cl.Rotate()
+		fresh.Get(8, func() (string, int) { return "y", unit })
+		cl.Cleanup(&cache.CleanStat{})
+		_, live := fresh.VerifLive()
+		if acc := cl.VerifSize(); acc != live {
+			fail(fmt.Sprintf("cleaner accounts %d bytes, live entries hold %d bytes", acc, live))
+		} else if acc > limit {
+			fail(fmt.Sprintf("accounted size %d is over the limit %d after a cleaning pass", acc, limit))
+		}
+	}
+	return bad
+}
+
 func main() {
 	flag.Parse()
 	if *register > 0 {
+		releaseScenario(*register)
 		registerScenario(*register)
 		emit(map[string]any{"summary": true, "cases": *register, "evals": *register * 5, "nontrivial": *register, "corpora": 0})
 		return
